@@ -110,15 +110,15 @@ package gonnx
 //@   ensures [C01] outputs_present: err == nil ==> result != nil && fresh(result) &&
 //@          (forall j :: 0 <= j && j < len(gouts(m)) ==> vname(gouts(m)[j]) in result && result[vname(gouts(m)[j])] != nil)
 //@   ensures [C01] only_declared_outputs: err == nil ==> (forall key string :: key in result ==> (exists j :: 0 <= j && j < len(gouts(m)) && vname(gouts(m)[j]) == key))
-//@   ensures err != nil ==> result == nil
-//@   loop 1 invariant tensors != nil && fresh(tensors) && (forall key string :: key in tensors ==> key in $visited) &&
+//@   ensures [C01] err != nil ==> result == nil
+//@   loop 1 invariant [C01] tensors != nil && fresh(tensors) && (forall key string :: key in tensors ==> key in $visited) &&
 //@          (forall key string :: key in $visited ==> key in m.parameters && key in tensors && tensors[key] == m.parameters[key])
-//@   loop 2 invariant tensors != nil && fresh(tensors) && env_ok(tensors) &&
+//@   loop 2 invariant [C01] tensors != nil && fresh(tensors) && env_ok(tensors) &&
 //@          (forall key string :: key in $visited ==> key in inputs && key in tensors && tensors[key] == inputs[key])
 //@   loop 3 establishes [C01] caller_input_overrides_initializer: forall key string :: key in inputs ==> key in tensors && tensors[key] == inputs[key]
-//@   loop 3 invariant tensors != nil && fresh(tensors) && env_ok(tensors) &&
-//@          (forall k :: 0 <= k && k < $i ==> optype(gnodes(m)[k]) in opset13__operators13)
-//@   loop 4 invariant outputTensors != nil && fresh(outputTensors) && env_ok(tensors) && tensors != outputTensors
-//@   loop 4 invariant forall j :: 0 <= j && j < $i ==> vname(gouts(m)[j]) in outputTensors
-//@   loop 4 invariant forall key string :: key in outputTensors ==> outputTensors[key] != nil
-//@   loop 4 invariant forall key string :: key in outputTensors ==> (exists j :: 0 <= j && j < $i && vname(gouts(m)[j]) == key)
+//@   loop 3 invariant [C01] tensors != nil && fresh(tensors) && env_ok(tensors)
+//@   loop 3 invariant [C18] forall k :: 0 <= k && k < $i ==> optype(gnodes(m)[k]) in opset13__operators13
+//@   loop 4 invariant [C01] outputTensors != nil && fresh(outputTensors) && env_ok(tensors) && tensors != outputTensors
+//@   loop 4 invariant [C01] forall j :: 0 <= j && j < $i ==> vname(gouts(m)[j]) in outputTensors
+//@   loop 4 invariant [C01] forall key string :: key in outputTensors ==> outputTensors[key] != nil
+//@   loop 4 invariant [C01] forall key string :: key in outputTensors ==> (exists j :: 0 <= j && j < $i && vname(gouts(m)[j]) == key)
